@@ -767,8 +767,12 @@ def gen_modes(rng, nmodes):
 
 def gen_decision(rng, big=False):
     env = gen_env(rng)
+    ggn = rng.random() < 0.04
+    if ggn:
+        env['nsites'], env['nch'] = 2, rng.randint(5, 7)
+        env['lines'] = [['A', 'B', [round(rng.uniform(20, 110), 1)], [round(rng.uniform(20, 110), 1)]]]
     auto = rng.random() < 0.6
-    nmodes = rng.randint(1, 8) if auto else rng.randint(1, 3)
+    nmodes = rng.randint(1, 3 if ggn else 8) if auto else rng.randint(1, 3)
     modes = gen_modes(rng, nmodes)
     names = [chr(65 + i) for i in range(env['nsites'])]
     src, dst = rng.sample(names, 2)
@@ -791,7 +795,11 @@ def gen_decision(rng, big=False):
                           for _ in range(3)]
                          for _ in modes],
             'tabseed': rng.randrange(1 << 30), 'nosnr': auto and rng.random() < 0.04,
-            'spectrum': gen_spectrum(rng, env) if (not auto and rng.random() < 0.4) else None}
+            'spectrum': gen_spectrum(rng, env) if (not auto and rng.random() < 0.4) else None,
+            'sim': {'nli_params': {'method': rng.choice(['ggn_approx', 'ggn_approx', 'ggn_spectrally_separated']),
+                                   'dispersion_tolerance': 4, 'phase_shift_tolerance': 0.1,
+                                   'computed_number_of_channels': rng.randint(2, 3)},
+                    'raman_params': {'flag': False}} if ggn else None}
 
 
 def complete_modes(E, case, path, req_probe, spectrum=None, tx_list=None):
@@ -874,6 +882,18 @@ def clean_mode(m):
 
 
 def drive_decision(case):
+    """sets the process-wide simulation parameters of the case (default: gn_model_analytic) around _drive_decision"""
+    from gnpy.core.parameters import SimParams
+    import warnings
+    warnings.filterwarnings('ignore', message='Polyfit may be poorly conditioned')
+    SimParams.set_params(copy.deepcopy(case.get('sim') or {}))
+    try:
+        return _drive_decision(case)
+    finally:
+        SimParams.set_params({})
+
+
+def _drive_decision(case):
     """runs the real planning step for one request; returns the environment and the observations (implementation's
     decision and figures, figures of fresh independent propagations for the model)"""
     import gnpy.topology.request as rq
@@ -1408,6 +1428,8 @@ def run(ctx):
             ctx.case(case_public(c), nfw > 1 or c['bidir'] or any(any(m['tabs']) for m in c['modes_final']))
             ctx.count('decision_auto' if c['mode'] is None else 'decision_fixed')
             ctx.count('decision_bidir' if c['bidir'] else 'decision_unidir')
+            if c.get('sim'):
+                ctx.count('decision_under_' + c['sim']['nli_params']['method'])
             if obs.get('tx_list'):
                 ctx.count('decision_with_initial_spectrum')
                 if len(set(obs['tx_list'])) > 1:
@@ -1451,6 +1473,16 @@ def run(ctx):
                 ctx.corr_break('corr:Verdict.decision', d, case_public(c), impl=impl, model=model)
             elif model.get('kind'):
                 ctx.count('outcome_' + model['kind'])
+    if ctx.thorough and not ctx.replay:
+        import subprocess
+        import sys
+        for f in sorted(glob.glob(os.path.join(common.VERIF, 'corpus', 'C13', '*.py'))):
+            r = subprocess.run([sys.executable, f], env=dict(os.environ, PYTHONPATH=common.REPO, PYTHONHASHSEED='0'),
+                               capture_output=True, text=True, timeout=1800)
+            ctx.count('corpus_scripts')
+            if r.returncode != 0:
+                ctx.violation('corpus_script_fails', f'{os.path.basename(f)} exits {r.returncode}: {r.stdout[-600:]}',
+                              {'script': os.path.basename(f)})
     amp_lines = common.coq_eval('C13', 'Prelude Model.Verdict Run.C13', amp_terms, per_file=ctx.scale(120, 400), tag='amps')
     for (c, t), line in zip(amp_meta, amp_lines):
         ctx.count('amplifier_histories')
